@@ -443,10 +443,14 @@ type respRec struct {
 	hijacked    bool
 	snapshotHdr http.Header
 	onWrite     func()
+	gate        func()
 }
 
 func (r *respRec) Header() http.Header { return r.hdr }
 func (r *respRec) WriteHeader(c int) {
+	if r.gate != nil {
+		r.gate() // a slow client connection: the writer can be parked inside the response write
+	}
 	r.mu.Lock()
 	defer r.mu.Unlock()
 	r.nWriteHdr++
@@ -456,6 +460,9 @@ func (r *respRec) WriteHeader(c int) {
 	}
 }
 func (r *respRec) Write(p []byte) (int, error) {
+	if r.gate != nil {
+		r.gate()
+	}
 	r.mu.Lock()
 	if r.code == 0 {
 		r.code = 200
@@ -593,6 +600,7 @@ func (w *World) StartReq(kind string, s *Sess, o ReqOpt) *Req {
 	}
 	w.rec.Log("cli.req", "rid", id, "kind", kind, "sid", sid, "method", method, "path", path, "q", q, "blen", len(o.Body))
 	r.rr.onWrite = func() { w.logResp(r) }
+	r.rr.gate = func() { w.g.at("rw.write", sid) }
 	go func() {
 		defer func() {
 			if p := recover(); p != nil {
